@@ -184,7 +184,7 @@ def selection_histories(M, rec, rng, n_hist):
         model = E.get_current_engine()
         hist = []
         for _s in range(rng.randint(3, 12)):
-            op = rng.choice(("name", "name", "instance", "unknown", "get", "nonstring"))
+            op = rng.choice(("name", "name", "instance", "unknown", "get", "nonstring", "listing"))
             hist.append(op)
             rec.count("selection_ops")
             rec.seen("selection_op_kinds", op)
@@ -195,7 +195,12 @@ def selection_histories(M, rec, rng, n_hist):
                     kw = {"sym_type": rng.choice(("SX", "MX"))}
                 if nm == "numpy" and rng.random() < 0.5:
                     kw = {"var_type": rng.choice(("rand", "randn", "empty"))}
-                r = E.use(nm, **kw)
+                try:
+                    r = E.use(nm, **kw)
+                except Exception as e:
+                    rec.violation(f"{PROP}:use('{nm}') refused a valid engine name ({type(e).__name__})",
+                                  {"history": hist, "exception": repr(e)[:200]})
+                    break
                 ok = (type(r).__module__.endswith("engines." + nm)) and E.get_current_engine() is r and sym_metanet.engine is r and r is not model
                 if kw.get("sym_type") and r.sym_type.__name__ != kw["sym_type"]:
                     ok = False
@@ -225,6 +230,31 @@ def selection_histories(M, rec, rng, n_hist):
                     rec.violation(f"{PROP}:use(unknown name) changed the selection", {"name": nm, "history": hist,
                                                                                      "now": repr(E.get_current_engine())})
                     E.use(model) if model is not None else None
+            elif op == "listing":
+                # the table of available engines is the caller's to keep and edit: it is information, not
+                # the selection mechanism's own state
+                try:
+                    tab = E.get_available_engines()
+                    if not {"numpy", "casadi"} <= set(tab):
+                        rec.violation(f"{PROP}:get_available_engines() does not list the numpy and casadi engines", {"history": hist, "listed": sorted(map(str, tab))})
+                    how = rng.choice(("pop", "clear", "bogus", "edit", "none"))
+                    if how == "pop":
+                        tab.pop(rng.choice(("numpy", "casadi")), None)
+                    elif how == "clear":
+                        tab.clear()
+                    elif how == "bogus":
+                        tab["torch"] = {"module": "sym_metanet.engines.torch", "class": "Engine"}
+                        tab["jax"] = dict(next(iter(tab.values())))
+                    elif how == "edit":
+                        for v_ in tab.values():
+                            if isinstance(v_, dict):
+                                for k_ in list(v_):
+                                    v_[k_] = "nonsense"
+                    rec.seen("listing_edits", how)
+                except Exception as e:
+                    rec.violation(f"{PROP}:get_available_engines() raised {type(e).__name__}", {"history": hist})
+                if E.get_current_engine() is not model or sym_metanet.engine is not model:
+                    rec.violation(f"{PROP}:listing the available engines changed the selection", {"history": hist})
             elif op == "nonstring":
                 try:
                     E.use(rng.choice((object(), 3, None)))
